@@ -42,6 +42,17 @@ class CFG:
             st.extend(self.nodes[i].succ)
         return seen
 
+    def reachable_from_succ(self, i):
+        seen = set()
+        st = list(self.nodes[i].succ)
+        while st:
+            x = st.pop()
+            if x in seen:
+                continue
+            seen.add(x)
+            st.extend(self.nodes[x].succ)
+        return seen
+
     def preds(self):
         p = {n.id: [] for n in self.nodes}
         for n in self.nodes:
